@@ -527,7 +527,20 @@ def F30():
     return rep.p.percentBu == 2.0, f"median representative burnup {rep.p.percentBu}"
 
 
-ALL = dict(F30=F30, F29=F29, F28=F28, F26=F26, F27=F27, F24=F24, F25=F25, F23=F23, F10=F10, F12=F12, F17=F17, F18=F18, F19=F19, F11=F11, F13=F13, F20=F20, F21=F21, F22=F22, F1=F1, F2=F2, F3=F3, F4=F4, F5=F5, F6=F6, F7=F7, F8=F8, F9=F9, F14=F14)
+def F31():
+    from armi.reactor.tests.test_blocks import buildSimpleFuelBlock
+
+    b = buildSimpleFuelBlock()
+    try:
+        b.p.envGroupNum = 52
+    except RuntimeError:
+        return True, "envGroupNum 52 is rejected"
+    letter = b.p.envGroup
+    b.p.envGroup = letter
+    return b.p.envGroupNum == 52, f"envGroupNum=52 stored letter {letter!r}; setting that letter gives number {b.p.envGroupNum}"
+
+
+ALL = dict(F31=F31, F30=F30, F29=F29, F28=F28, F26=F26, F27=F27, F24=F24, F25=F25, F23=F23, F10=F10, F12=F12, F17=F17, F18=F18, F19=F19, F11=F11, F13=F13, F20=F20, F21=F21, F22=F22, F1=F1, F2=F2, F3=F3, F4=F4, F5=F5, F6=F6, F7=F7, F8=F8, F9=F9, F14=F14)
 
 if __name__ == "__main__":
     sys.path.insert(0, os.getcwd())
